@@ -5,6 +5,7 @@ import Driver.ModOps
 import Driver.RuleOps
 import Driver.CollOps
 import Driver.GateOps
+import Driver.PipeOps
 open Lean Driver
 
 def dispatch (op : String) (j : Json) : Except String Json :=
@@ -24,6 +25,8 @@ def dispatch (op : String) (j : Json) : Except String Json :=
   | "coll.check" => collCheck j
   | "coll.convert" => collConvert j
   | "gate.eval" => gateEval j
+  | "pipe.compose" => pipeCompose j
+  | "pipe.sys" => pipeSys j
   | "ping" => pure (Json.mkObj [("pong", true)])
   | _ => throw s!"unknown op {op}"
 
